@@ -696,6 +696,9 @@ func (ex *Exec) keyEq(a, b Value) *Term {
 
 // mapFind forks over which entry (if any) equals the key.
 func (ex *Exec) mapFind(m *MapObj, k Value) int {
+	if ex.watchMap != nil {
+		ex.guard(ex.watchMap[m], false, "map")
+	}
 	for i, e := range m.Entries {
 		c := ex.keyEq(e.K, k)
 		if c == ex.B.False {
@@ -738,6 +741,9 @@ func (ex *Exec) lookup(fr *frame, in *ssa.Lookup) Value {
 }
 
 func (ex *Exec) mapUpdate(m *MapObj, k, v Value) {
+	if ex.watchMap != nil {
+		ex.guard(ex.watchMap[m], true, "map")
+	}
 	idx := ex.mapFind(m, k)
 	if idx >= 0 {
 		ne := append([]MapEntry(nil), m.Entries...)
@@ -750,6 +756,9 @@ func (ex *Exec) mapUpdate(m *MapObj, k, v Value) {
 }
 
 func (ex *Exec) mapDelete(m *MapObj, k Value) {
+	if ex.watchMap != nil {
+		ex.guard(ex.watchMap[m], true, "map")
+	}
 	idx := ex.mapFind(m, k)
 	if idx < 0 {
 		return
@@ -769,6 +778,9 @@ func (ex *Exec) rangeInit(fr *frame, in *ssa.Range) Value {
 	case *Map:
 		it := &mapIter{}
 		if a.M != nil {
+			if ex.watchMap != nil {
+				ex.guard(ex.watchMap[a.M], false, "map")
+			}
 			it.m = a.M
 			for _, e := range a.M.Entries {
 				it.keys = append(it.keys, e.K)
